@@ -16,7 +16,7 @@ from .C01 import *  # noqa: F401,F403  (fixture classes must be importable from 
 
 LEVEL = "other"  # open known findings: some obligations are refuted on the current tree, so "every obligation discharged" does not hold (see known_findings.jsonl)
 
-CONTRACTS = base.C_RLOADS + base.C_SVALS + base.C_RSAVES + base.C_SAVES + [base.C_LOAD] + base.C_SCONTS + base.C_DCONTS
+CONTRACTS = base.C_RLOADS + base.C_SVALS + base.C_RSAVES + base.C_SAVES + [base.C_LOAD] + base.C_SCONTS + base.C_DCONTS + [base.C_ISAUTO]
 
 
 def make_registry():
